@@ -21,6 +21,7 @@ type c17Case struct {
 	Rerun    bool   `json:"rerun"`
 	Multi    string `json:"multi,omitempty"` // "" | "os+o" | "os+os": the producer has a second out-port `log` with its own consumer
 	SubDir   bool   `json:"subdir,omitempty"` // the streaming output lies in a directory that does not exist yet
+	Up       string `json:"up,omitempty"`     // the streaming output lies in this directory beside the working directory (../<up>/)
 }
 
 func (c c17Case) desc() (*Desc, map[string]string) {
@@ -65,6 +66,9 @@ func streamPat(c c17Case) string {
 	if c.SubDir {
 		return "newdir/deeper/{i:in}.stream"
 	}
+	if c.Up != "" {
+		return "../" + c.Up + "/{i:in}.stream"
+	}
 	return "{i:in}.stream"
 }
 
@@ -72,6 +76,10 @@ func runC17(ctx *Ctx, c c17Case) {
 	d, pre := c.desc()
 	rr := RunWorkflow(d, RunOpts{Pre: pre, Timeout: 20e9})
 	defer os.RemoveAll(rr.Dir)
+	if c.Up != "" {
+		defer os.RemoveAll(filepath.Join(rr.Dir, "..", c.Up))
+		ctx.Res.Count("stream-path-with-../")
+	}
 	ctx.Res.Eval(fmt.Sprintf("%v", c), c.N >= 1, c)
 	ctx.Res.Count(fmt.Sprintf("bytes=%d", c.Bytes))
 	ctx.Res.Count("linger=" + c.Linger)
@@ -87,6 +95,9 @@ func runC17(ctx *Ctx, c c17Case) {
 		in := fmt.Sprintf("in%d.txt", i)
 		if c.SubDir {
 			in = "newdir/deeper/" + in // the stream (and the consumer's copy next to it) live below the new directory
+		}
+		if c.Up != "" {
+			in = "../" + c.Up + "/" + in
 		}
 		want := fmt.Sprintf("seed-%d\n", i) + strings.Repeat("x", c.Bytes)
 		got, ok := readFile(rr.Dir, in+".stream.copy")
@@ -180,7 +191,8 @@ func checkC17(ctx *Ctx) {
 	cases = append(cases, c17Case{N: 1, Bytes: 100, Max: 2, Linger: "producer"}, c17Case{N: 1, Bytes: 100, Max: 2, Linger: "consumer"}, c17Case{N: 2, Bytes: 70000, Max: 4, Rerun: true},
 		// a producer with a streaming and a second (ordinary / streaming) out-port, each with its own consumer
 		c17Case{N: 3, Bytes: 100, Max: 9, Multi: "os+o"}, c17Case{N: 2, Bytes: 70000, Max: 6, Multi: "os+o", Linger: "producer"}, c17Case{N: 2, Bytes: 100, Max: 6, Multi: "os+os"},
-		c17Case{N: 2, Bytes: 100, Max: 4, SubDir: true})
+		c17Case{N: 2, Bytes: 100, Max: 4, SubDir: true},
+		c17Case{N: 2, Bytes: 100, Max: 4, Up: fmt.Sprintf("c17up_%d_a", os.Getpid())}, c17Case{N: 1, Bytes: 70000, Max: 2, Up: fmt.Sprintf("c17up_%d_b", os.Getpid()), Linger: "consumer"})
 	parallel(len(cases), 4, func(i int) {
 		if ctx.TimeLeft() {
 			runC17(ctx, cases[i])
